@@ -866,9 +866,9 @@ def enumerate_cases(tier):
                 add("static", C, A, F, ["c", "g"])
         for S in STRUCT_ORDER:
             for A in ATOM_ORDER:
-                for C, F in CORE_CTX + [("genexp", "def"), ("lambda", "lambda"), ("for", "def")]:
+                for C, F in CORE_CTX + [("genexp", "def"), ("for", "def")]:
                     add(S, C, A, F, FLAGS)
-        for S in ("inh1o", "item1d"):
+        for S in ("item1d",):
             for C, F in ALL_CF:
                 for A in ATOM_ORDER:
                     add(S, C, A, F, ["c"])
